@@ -35,7 +35,11 @@ fn casm_of(p: &cairo_lang_sierra::program::Program) -> Option<String> {
 fn check(text: &str) -> Result<bool, String> {
     let Ok(original) = ProgramParser::new().parse(text) else { return Ok(false) };
     let canonical = CanonicalReplacer::from_program(&original).apply(&original);
-    let Ok(class) = ContractClass::new(&canonical, ContractEntryPoints::default(), None, Default::default()) else { return Ok(false) };
+    let class = match ContractClass::new(&canonical, ContractEntryPoints::default(), None, Default::default()) {
+        Ok(c) => c,
+        // "serializing it to the felt252 array ... succeed[s]": a program that compiles has to be publishable
+        Err(e) => { if casm_of(&canonical).is_some() { return Err(format!("a program that compiles cannot be published: {e}")); } return Ok(false); }
+    };
     let json = serde_json::to_string(&class).map_err(|e| format!("class does not print as JSON: {e}"))?;
     let class: ContractClass = serde_json::from_str(&json).map_err(|e| format!("class JSON does not parse back: {e}"))?;
     let plain = class.extract_sierra_program(false).map_err(|e| format!("published class cannot be read back: {e}"))?.program;
@@ -86,6 +90,15 @@ fn __verif_n_c18_debug_info() {
     // sierra-generator's own test data holds the coupon / function-call shapes
     let (mut cases, mut checked) = (0u64, 0u64);
     let mut fails: std::collections::BTreeMap<String, (String, String)> = Default::default();
+    // every program with two or more functions also with its function declarations REVERSED: the order of
+    // declarations is free (entry points are arbitrary statement indices), compiler output just happens to be sorted
+    let reversed: Vec<(String, String)> = inputs.iter().filter_map(|(name, text)| {
+        let mut p = ProgramParser::new().parse(text).ok()?;
+        if p.funcs.len() < 2 || p.funcs.len() > 40 { return None; }
+        p.funcs.reverse();
+        Some((format!("{name} [function declarations reversed]"), p.to_string()))
+    }).collect();
+    inputs.extend(reversed);
     for (name, text) in &inputs {
         cases += 1;
         match catch_unwind(AssertUnwindSafe(|| check(text))) {
